@@ -262,9 +262,9 @@ func checkC01(c *Ctx) {
 		"outside values. Non-trivial = the shape has interior material (a sample with f<0 inside its box) and >= 1000 outside probes; " +
 		"distinct = (constructor, parameter description) / tree description.")
 	c.Assume("a violation needs f(p) < -1e-9*diag at a point more than 1e-9*diag outside the box; Offset/Shell are generated only over operands whose value bounds the box distance from below (otherwise their box is not meaningful); gyroid is exempt as documented")
-	perEntry := c.Pick(12, 150)
+	perEntry := c.Pick(20, 150)
 	budget := c.Pick(6000, 40000)
-	nTrees := c.Pick(500, 12000)
+	nTrees := c.Pick(3000, 30000)
 	maxDepth := c.Pick(3, 5)
 
 	// (a) catalog
@@ -343,7 +343,7 @@ func checkC01(c *Ctx) {
 	})
 	c.Obs("combinator_kinds_exercised", kindSeen)
 	c01Pinned(c)
-	c.Floor(c.Pick(300, 5000))
+	c.Floor(c.Pick(2000, 15000))
 }
 
 func judgeBox(c *Ctx, res probeResult, name, desc string, box any, extra map[string]any) {
